@@ -10,6 +10,29 @@ import subprocess
 import time
 
 
+FRAG_RING_STUB = ("pub const TPC_ANODE_WIRES: usize = 256;\n"
+                  "pub fn contiguous_ranges(_w: &[Option<Vec<f64>>; 256]) -> Vec<(usize, usize)> { unimplemented!() }\n"
+                  "pub fn range_to_indices(_r: (usize, usize)) -> Box<dyn Iterator<Item = usize>> { unimplemented!() }\n"
+                  "pub fn range_to_len(_r: (usize, usize)) -> usize { unimplemented!() }\n"
+                  "pub fn problem_dimensions(_w: &[Option<Vec<f64>>; 256], _r: (usize, usize)) -> (usize, usize) { unimplemented!() }\n")
+
+
+def _frag(repo, verif, unit, path, stub):
+    """write the plain-Rust fragment unit, or its stub (with FRAG_*_OK = false) when the anchor is lost"""
+    import sys
+    sys.path.insert(0, verif)
+    from vtool import vspec, extract
+    flag = "FRAG_RING_OK" if unit == "__missing__" else unit.upper() + "_OK"
+    try:
+        u = vspec.parse(os.path.join(verif, "contracts", unit + ".vspec"))
+        text = extract.UnitBuilder(repo, os.path.join(verif, "contracts", "lib"), u).build()
+        text += f"pub const {flag}: bool = true;\n"
+    except Exception as e:
+        text = "// fragment extraction failed: " + str(e).replace("\n", " ") + "\n" + stub + f"pub const {flag}: bool = false;\n"
+    if not os.path.exists(path) or open(path).read() != text:
+        open(path, "w").write(text)
+
+
 def _build(repo, verif, physics=False):
     key = hashlib.sha1(os.path.abspath(repo).encode()).hexdigest()[:8]
     wd = os.path.join(verif, "work", f"replay-{key}")
@@ -45,6 +68,11 @@ opt-level = 1
     # one target directory per repository path: concurrent checks against different trees must not share a binary
     env = dict(os.environ, CARGO_NET_OFFLINE="true", CARGO_TARGET_DIR=os.path.join(verif, "work", f"replay-target-{key}"),
                VERIF_REPO_DIR=os.path.abspath(repo))
+    # fragment files compiled into the replay crate (verbatim function text cut out of the working tree)
+    fdir = os.path.join(wd, "frag")
+    os.makedirs(fdir, exist_ok=True)
+    env["VERIF_FRAG_DIR"] = fdir
+    _frag(repo, verif, "frag_ring", os.path.join(fdir, "frag_ring.rs"), FRAG_RING_STUB)
     # always try the full build (detector + physics) so that the binary does not flip between feature sets; fall back to the
     # detector-only build when physics does not compile and the caller does not need it
     exe = os.path.join(env["CARGO_TARGET_DIR"], "release", "verif_replay")
@@ -52,6 +80,14 @@ opt-level = 1
                        capture_output=True, text=True, timeout=3600)
     if r.returncode == 0:
         return exe, None
+    if "frag_ring.rs" in (r.stderr or ""):
+        # the verbatim fragment does not compile in its wrapper (e.g. a changed signature): stub it (check c13_dims -> undecided)
+        # so that every other native check keeps working
+        _frag(repo, verif, "__missing__", os.path.join(fdir, "frag_ring.rs"), FRAG_RING_STUB)
+        r = subprocess.run(["cargo", "build", "--release", "--offline", "-q", "--features", "physics"], cwd=wd, env=env,
+                           capture_output=True, text=True, timeout=3600)
+        if r.returncode == 0:
+            return exe, None
     if physics:
         return None, (r.stderr or r.stdout)[-1500:]
     r = subprocess.run(["cargo", "build", "--release", "--offline", "-q"], cwd=wd, env=env, capture_output=True, text=True, timeout=1800)
